@@ -317,6 +317,7 @@ def parseEv : Char → Option PeerEv
   | 'p' | 'q' => some .finInside
   | 'r' => some .reset
   | 't' => some .silence
+  | 'u' | 'v' => some .silenceInside
   | _ => none
 
 def showClass : ErrClass → String
@@ -373,7 +374,7 @@ def setTni (d : State) (k : Nat) (t : Tni) : State :=
   frame / sends another message first; answer `table=<serial numbers of p's connections in table order>`
 * `rawev <p> <k> <events>` — on p's raw connection number k the peer does, one after the other:
   `g` a good frame, `x` an undecodable frame, `b` a header announcing too big a frame, `c` close,
-  `p` / `q` close inside a header / a body, `r` reset, `t` silence until the read time-out (only when
+  `p` / `q` close inside a header / a body, `r` reset, `u` / `v` silence inside a body / a header, `t` silence until the read time-out (only when
   this is the survivor's only connection: every idle connection times out); events after the one
   that ends the loop are not sent; answer `dispatched=<d> told=<calls> table=<…>`
 -/
@@ -493,7 +494,7 @@ def step (d : State) (toks : List String) : State × String :=
     | some p, some k, some evs =>
       match d.raw.find? (fun (q, j, _) => q == p && j == k) with
       | some (_, _, cid) =>
-        if evs.isEmpty ∨ !d.rh.isEmpty ∨ (evs.contains .silence ∧ s.conns.length ≠ 1) then (d, "bad-op") else
+        if evs.isEmpty ∨ !d.rh.isEmpty ∨ ((evs.contains .silence ∨ evs.contains .silenceInside) ∧ s.conns.length ≠ 1) then (d, "bad-op") else
         let o := recvLoop (evs.map fun e => { r := e.recv })
         let s1 := endLoop s cid o.exit
         let raw' := if o.exit.isSome then d.raw.filter (fun (q, j, _) => !(q == p && j == k)) else d.raw
